@@ -82,6 +82,17 @@ def handle (op : String) (a : Json) : Except String Json := do
   | "holds_index" =>
     let out ← getOut (fun j => j.getNat?) (← fld a "out")
     return boolJ (indexSpec (← getRatList (← fld a "coords")) (← fldRat a "v") (← fldBool a "raise") out)
+  | "holds_index_many" =>
+    -- the lookup statement on one axis for many lookups `[v, raise, out]` (the axis is parsed once)
+    let coords ← getRatList (← fld a "coords")
+    let ls ← fldArr a "lookups"
+    let rs ← ls.mapM fun l => do
+      match ← getArr l with
+      | [v, r, o] =>
+        let out ← getOut (fun j => j.getNat?) o
+        return boolJ (indexSpec coords (← getRat v) (← r.getBool?) out)
+      | _ => .error "lookup entry"
+    return Json.arr rs.toArray
   | "range_robust" =>
     -- the hypothesis of `C16_count_robust` on what numpy's arange returned, and the rule's result
     let cs ← getRatList (← fld a "cs")
